@@ -37,7 +37,18 @@ theorem drel_declare {g : Globals} {R : Ty} {s : St} {ss : SpecSt} (hr : DRel g 
   have hdts : (((s.insertValue n v).registerInner v.innerName).push i).dts =
       (mapHead (DT.setValues (assocInsert n v)) s.dts).map (DT.addDecl v) := by
     rw [dts_push_decl _ v _ hdecl, dts_registerInner, dts_insertValue]
-  refine ⟨⟨?_, ?_, ?_, ?_⟩, ?_, ?_, ?_, ?_, ?_, ?_, ?_⟩
+  refine ⟨⟨?_, ?_, ?_, ?_⟩, ?_, ?_, ?_, ?_, ?_, ?_, ?_, ?_⟩
+  rotate_left 11
+  · -- written registers: the declaring instruction writes none
+    intro p hp
+    rw [tenv_push, tenv_registerInner, tenv_insertValue] at hp
+    have hrr : (((s.insertValue n v).registerInner v.innerName).push i).root.reg = s.root.reg := by
+      unfold St.push St.registerInner St.mapFrames St.insertValue St.mapCur
+      cases s.inner <;> rfl
+    rw [hrr]
+    rcases written_step _ _ p hp with hp | hp
+    · exact hr.wle p hp
+    · rw [hw] at hp; cases hp
   rotate_left 7
   · apply rd_push_nowrite (rd_insertRegister hr.rd _ _ _) _ hw
     intro q hq
@@ -117,7 +128,7 @@ theorem drel_declare {g : Globals} {R : Ty} {s : St} {ss : SpecSt} (hr : DRel g 
           exact Or.inr (hr.scope.dk x (by rw [hx]; simp) k w hw')
       · exact Or.inr (hr.scope.dk fr (by rw [hx]; simp [hfr]) k w hw')
     rcases hcase with rfl | hok
-    · exact declOk_self _ _ _
+    · exact declOk_self _ _ _ _
     · exact declOk_cons (fun e => hold w hok e.symm) hok
   · rw [htenv, hroot]
     intro d' hd
@@ -294,7 +305,9 @@ theorem den_bodyStmts (hg : GlobRel g rg) (hn : GNames g) (resTy : Ty) : ∀ (l 
 /-! ### The whole function -/
 
 theorem drel_init {g : Globals} {R : Ty} : DRel g R St.init SpecSt.init := by
-  refine ⟨⟨?_, ?_, ?_, ?_⟩, rfl, rfl, ?_, ?_, ?_, ?_, ?_⟩
+  refine ⟨⟨?_, ?_, ?_, ?_⟩, rfl, rfl, ?_, ?_, ?_, ?_, ?_, ?_⟩
+  rotate_left 9
+  · intro p hp; simp [St.tenv, St.init, Block.fresh, TyEnv.init] at hp
   rotate_left 4
   · intro n hn; cases hn
   · refine ⟨by intro b hb; simp [St.init] at hb, rfl, ?_⟩
